@@ -131,9 +131,11 @@ def drop_attrs_and_docs(text, log):
         keep = ""
         if re.match(r"\s*derive\s*\(", attr) and re.search(r"\bDebug\b", attr):
             keep = "\x00[derive(Debug)]"   # re-inserted below; Clone/PartialEq are re-declared with specs in the shim
+        if re.match(r"\s*repr\s*\(", attr):
+            keep = "\x00[" + attr.strip() + "]"
         text = text[:m.start()] + keep + text[cb + 1:]
         n_attr += 1
-    text = text.replace("\x00[derive(Debug)]", "#[derive(Debug)]")
+    text = text.replace("\x00[", "#[")
     log.hit("R1 attribute dropped", n_attr)
     # doc comments
     out = []
@@ -279,6 +281,30 @@ def opaque_error_text(text, log):
     return "".join(out)
 
 
+# ---------------- R11 enumerate() desugaring
+def desugar_enumerate(text, log):
+    """`for (i, x) in E.iter().enumerate() { B }`  ->  `let mut i: usize = 0; for x in E.iter() { B i += 1; }`
+    (refused when B contains `continue`, which would skip the increment)"""
+    n = 0
+    while True:
+        masked = lex.mask(text)
+        m = re.search(r"for \((\w+), (\w+)\) in ([^\n{]+?)\.enumerate\(\) \{", masked)
+        if not m:
+            break
+        ob = m.end() - 1
+        cb = lex.match_close(masked, ob)
+        body = masked[ob:cb]
+        if re.search(r"\bcontinue\b", body):
+            raise RewriteError("enumerate loop with `continue` cannot be desugared")
+        ind = re.search(r"[ \t]*$", text[:m.start()]).group(0)
+        i, x, e = m.group(1), m.group(2), text[m.start(3):m.end(3)]
+        text = (text[:m.start()] + "let mut %s: usize = 0;\n%sfor %s in %s {" % (i, ind, x, e)
+                + text[ob + 1:cb] + "    %s += 1;\n%s" % (i, ind) + text[cb:])
+        n += 1
+    log.hit("R11 enumerate() loop desugared to an index counter", n)
+    return text
+
+
 def apply_all(text, log, refcell=False, keep_vis=False):
     text = resolve_cfg(text, log)
     text = drop_attrs_and_docs(text, log)
@@ -288,5 +314,6 @@ def apply_all(text, log, refcell=False, keep_vis=False):
     if refcell:
         text = erase_refcell(text, log)
     text = desugar_slice_patterns(text, log)
+    text = desugar_enumerate(text, log)
     text = opaque_error_text(text, log)
     return text
